@@ -295,8 +295,15 @@ def run(ctx):
             tasks.append((n, lam, None, letters))
             for p_env in PS:
                 tasks.append((n, lam, p_env, letters))
+    # an alphabet with the value 0 in it (a valid observation that happens to be zero is not a gap): words of length 4..6
+    zletters = [0, 10, 900]
+    for n in range(6, 3, -1):
+        for lam in LAMS:
+            tasks.append((n, lam, None, zletters))
+            tasks.append((n, lam, PS[0], zletters))
     ctx.pmap(_kernel_task, tasks)
     ctx.note("letters", letters)
+    ctx.note("letters_with_zero", zletters)
     ctx.note("lambdas", [repr(l) for l in LAMS])
     ctx.note("p_values", PS)
     ctx.note("max_len", maxn)
